@@ -44,10 +44,9 @@ use vcore::{CaseResult, Failure};
 /// As `WorldSpec::build(true)` for a pair, but node `x`'s key interface signs revoked holder state.
 pub fn build_world(spec: &WorldSpec, x: usize) -> Sim {
 	let n = 2;
-	let cfg = spec.user_config();
 	let w = World::new(WorldCfg {
 		n,
-		configs: vec![cfg; n],
+		configs: spec.node_configs(n),
 		keep_images: true,
 		deferred_monitor: false,
 		connect_style: connect_style_of(spec.connect_style),
